@@ -1,7 +1,18 @@
 from vf import Q
 import C18_thread as A
-META = {"assumptions": [], "outside": []}
-MANIFEST = {}
+META = {
+ "assumptions": A.META["assumptions"] + [
+  "thread part: failing pthread calls - lock scripts: up to 2 symbolic failures of pthread_mutex_init / pthread_cond_init / pthread_rwlock_init; thread script: the f-th fallible "
+  "pthread call (pthread_key_create, pthread_setspecific, pthread_attr_init/setdetachstate/setinheritsched, pthread_create with EAGAIN or EPERM, pthread_setname_np) fails, f concrete per query",
+  "thread part: platform TLS keys are not counted as a leaked resource (p_uthread_local_free documents that it keeps the key); their heap blocks are"],
+ "outside": A.META["outside"] + ["thread part: thread stacks and kernel objects behind pthread handles"],
+}
+MANIFEST = {
+ "level_text": "Same scripts as the C18 thread part on the success path and with every single pthread call failing in turn; at the end every ledger (library allocations, initialised mutex/cond/rwlock objects, attribute objects, unreaped threads) must equal the initial one.",
+ "level_note": "Trusted: CBMC 6.11, allocator ledger, pthread emulation ledgers.",
+ "technique": "CBMC on real units, fault injection in pthread models, ledger comparison",
+ "design_ref": "DESIGN.md §3 C20 (thread/lock modules)",
+}
 NF = 13
 def utq(entry, kf=None, extra=(), kf_match=None):
     q = A.utq("res_kf_demo" if kf else "res", entry, kf=kf, extra=extra, kf_match=kf_match)
